@@ -41,6 +41,8 @@ CFG = {
         "Swat4.TimedInv.usys_inv",
         # the cleanup pass inside the system model: C14_race's premise derived from the run
         "Swat4.C14.clean_race_run",
+        "Swat4.C14.clean_race_run_lazy",
+        "Swat4.CleanRace.removing_established_lazy",
         "Swat4.CleanRace.fetch_pending",
         "Swat4.CleanRace.remove_step",
         "Swat4.CleanRace.removing_established",
@@ -77,7 +79,13 @@ CFG = {
                 "refreshed_survives_pass (the race theorem from an invariant-satisfying start, no per-row hypothesis), refreshedAt_changes_only_by (a stored refresh time "
                 "changes only to `now` and only under the key of an accepted heartbeat, an owner-checked keepalive or a successful probe; retry, failure, refresh, revival, "
                 "REST submission, removal and the cleaners leave it alone). Tied to listservers.go, servercleaner.go, instancecleaner.go by sequential histories on a fake clock with "
-                "boundary-aligned steps and by all placements of one refresh among the cleanup pass's repository calls.",
+                "boundary-aligned steps and by all placements of one refresh among the cleanup pass's repository calls. "
+                "Round 6: refLeUpd_usys (Keyed and refreshedAt <= updatedAt <= clock hold in every reachable state of the system model USys: any clients, any interleaving, "
+                "crashes, faults, non-negative ticks - the clock may now move between the calls of one use case); clean_race_run / clean_race_run_lazy (the scan/fetch/guarded-remove "
+                "pass interleaved with arbitrary non-removing clients in USys: the premise of C14_race - every pending copy is the stored record or strictly older - is derived "
+                "from the run (CleanRace.Pending, established by the fetch, kept by every event), no step of the cleaner removes a row that is at that moment refreshed after the "
+                "cutoff, and a pending copy that is still the stored record is removed at its turn); clean_removes_index_entries (through C10's removeBatch_consistent and C11's "
+                "rel_remove: the removal batch deletes the record together with its updated / refreshed scores and all nine status-set memberships).",
         "level_note": "Trusted: Lean kernel (propext, Quot.sound, Classical.choice); atomic repository calls (C09/C11); Prog models of the cleaners and "
                       "the listing validated by the differential run; the bookkeeping oracle in the driver.",
         "technique": "Lean 4 proof (induction over the cleanup pass with a per-key frame lemma) + differential correspondence on a fake clock",
